@@ -460,10 +460,13 @@ func expandSeq(s string) []string {
 	return out
 }
 
-// mustCallOnEveryPath: every path from f's entry to a return calls a function
+// mustCallOnEveryPath: every path from f's entry to a return that does not report an error calls a function
 // whose name ends in suffix (constant branches resolved).
 func mustCallOnEveryPath(f *ssa.Function, suffix string) bool {
-	_, reach := findPath(pathQuery{fn: f, target: func(in ssa.Instruction) bool { _, ok := in.(*ssa.Return); return ok },
+	_, reach := findPath(pathQuery{fn: f, target: func(in ssa.Instruction) bool {
+		r, ok := in.(*ssa.Return)
+		return ok && !isErrorReturn(f, r)
+	},
 		blocker: func(in ssa.Instruction) bool {
 			ci, ok := in.(ssa.CallInstruction)
 			if !ok {
